@@ -17,8 +17,8 @@ LEVEL_TEXT = ("(1) Metatheorem NI-world (Lean, all task lists / interleavings / 
 LEVEL_NOTE = ("C09_partial: flat contact/collision buffers (ownership by world tag, group keys built from the world id) and index expressions beyond the leading one are covered by the differential only; "
               "the shared naconmax budget is the one legitimate coupling (excluded by the property: 'provided no overflow is reported'). Cloth scenes: runs are stepped in lock-step and re-synchronised bitwise to the batch after every step (one-step "
               "non-interference from identical states, by induction the history); contacts bitwise as sets, states after the step to 2e-3 relative only, because the ORDER of a world's cloth-pair "
-              "contacts in the flat buffer (hence row and summation order) depends on its neighbours (hit flex-state-equal-up-to-roundoff-only); sensor stage disabled (no sensors in the models; "
-              "sensor_acc's tactile preprocessing indexes geom_bodyid with the -1 geom ids of flex contacts). `collision_flex._compute_filter_key` (int64 key packing) is not a translator target, so "
+              "contacts in the flat buffer (hence row and summation order) depends on its neighbours (recorded finding C09-flex-contact-order, reported when observed). The scenes also go through "
+              "sensor_acc, whose tactile preprocessing used to index geom_bodyid with the -1 geom ids of flex contacts (segfault without geoms; found by this work, repaired in /repo: 077b3f5). `collision_flex._compute_filter_key` (int64 key packing) is not a translator target, so "
               "the world-separation of group keys has no theorem. Trusted: Lean kernel, E3 extractor (harness/translate/graph.py).")
 ASSUMPTIONS = ["CPU execution: per-world arithmetic order is unchanged by batching, so results are compared exactly"]
 
@@ -67,7 +67,7 @@ def _flex_scene(rng, kind, nworld, lifted):
   # the sensor stage is disabled: the models have no sensors, and sensor_acc's unconditional tactile preprocessing indexes
   # geom_bodyid with the geom ids of every contact, which are -1 for flex contacts (a crash for ngeom == 0; C17's business)
   xml = f"""<mujoco>
-  <option timestep="0.002"><flag sensor="disable"/></option>
+  <option timestep="0.002"/>
   <worldbody>
     {geoms}{fl}
   </worldbody>
@@ -320,6 +320,14 @@ def _check_flex_case(acc, rng, case, c, nsteps):
         tol = 2e-3 * (1 + np.abs(a).max())
         if np.allclose(a, b, rtol=2e-3, atol=tol) and np.allclose(a, b2, rtol=2e-3, atol=tol):
           acc.hit("flex-state-equal-up-to-roundoff-only")
+          # recorded deviation (known_findings C09-flex-contact-order): same contact SET, different order in the flat buffer
+          seen = acc.__dict__.setdefault("_order_cases", set())
+          if c in seen:
+            continue
+          seen.add(c)
+          acc.find(f"world {w}: from bitwise identical states and with identical contact sets, {nm} after step {s} differs in the last bits between running alone / in the batch "
+                   f"(max diff {max(np.abs(a - b).max(), np.abs(a - b2).max()):.3g}): the order of a world's flex-flex contacts in the flat buffer depends on its neighbours",
+                   FLEX_SITE, "flex-contact-order-roundoff", world=w, step=s, perm=perm, **replay)
           continue
         acc.find(f"world {w}: from bitwise identical states and with identical contacts, {nm} after step {s} differs between running alone / at batch index {w} / at index {pw} of the permuted "
                  f"batch (max diff {max(np.abs(a - b).max(), np.abs(a - b2).max()):.3g}, scale {np.abs(a).max():.3g})", "forward.step", "batch-dependence", world=w, step=s, perm=perm, **replay)
